@@ -33,6 +33,13 @@ def generate(rng, tier):
     tags = set()
     nl = gen.gen_nrow(rng)
     nr = gen.gen_nrow(rng)
+    r0 = rng.random()
+    if r0 < 0.003:
+        nl, nr = rng.choice([3, 40]), rng.choice([600, 3000])      # a right frame far longer than the left one
+        tags.add("big")
+    elif r0 < 0.005:
+        nl, nr = rng.choice([1200, 10100]), rng.choice([5, 50])
+        tags.add("big")
     nkey = rng.choice([1, 1, 1, 2, 2, 3])
     lspec = [("_lid_", "int", list(range(nl)))]
     rspec = [("_rid_", "int", list(range(nr)))]
@@ -58,7 +65,7 @@ def generate(rng, tier):
         rname = lname if rng.random() < 0.6 else f"r{j}"
         lspec.append((lname, kind, lv))
         rspec.append((rname, rkind, rv))
-        by.append(lname if lname == rname else (lname, rname))
+        by.append(lname if lname == rname else rng.choice([(lname, rname), [lname, rname]]))     # tuple or list form
     for j in range(rng.randint(0, 2)):
         kind = rng.choice(gen.KINDS_KEY)
         lspec.append((f"lp{j}", kind, gen.gen_values(rng, kind, nl, rng.choice(gen.NA_PATTERNS), "few", 0.2, tags)))
